@@ -694,3 +694,63 @@ def g_gate_map_local_state(rng, level=0, n_random=150):
         g = ci.CliffordGate(*q)
         g.forward_map = _rand_map(rng, len(q))
         yield {'self': g, 'obj': _rand_state(rng, N)}
+
+
+@gen(U + 'stabilizer_entropy')
+def g_entropy(rng, level=0, n_random=300):
+    # active stabilizers of random states of every rank, all regions for N <= 3, random regions beyond
+    for k in range(n_random):
+        N = 1 + k % 5
+        gs, ps = rand_tableau(rng, N)
+        r = int(rng.integers(0, N + 1))
+        if N <= 3:
+            regs = list(itertools.product([False, True], repeat=N))
+            m = np.array(regs[(k // 5) % len(regs)], dtype=bool)
+        else:
+            m = rng.integers(0, 2, N).astype(bool)
+        yield {'gs': gs[r:N].copy(), 'mask': m}
+
+
+@gen(ST + 'StabilizerState.entropy#mask')
+def g_sentropy_mask(rng, level=0, n_random=200):
+    for k in range(n_random):
+        N = 1 + k % 4
+        st = _rand_state(rng, N)
+        yield {'self': st, 'subsys': _rand_mask(rng, N, k // 4)}
+
+
+@gen(ST + 'StabilizerState.entropy#qubits')
+def g_sentropy_qubits(rng, level=0, n_random=200):
+    for k in range(n_random):
+        N = 1 + k % 4
+        st = _rand_state(rng, N)
+        m = _rand_mask(rng, N, k // 4)
+        yield {'self': st, 'subsys': np.flatnonzero(m).astype(np.int64)}
+
+
+@gen(PA + 'Pauli.rotate_by#nomask')
+def g_prot(rng, level=0, n_random=200):
+    pa, _ = _pc()
+    for _ in range(n_random):
+        N = int(rng.integers(1, 5))
+        yield {'self': pa.Pauli(bits(rng, 2 * N), int(rng.integers(0, 4))), 'generator': pa.Pauli(bits(rng, 2 * N), int(rng.integers(0, 4))), 'mask': None}
+
+
+@gen(PA + 'Pauli.transform_by#nomask')
+def g_ptr(rng, level=0, n_random=200):
+    pa, _ = _pc()
+    for _ in range(n_random):
+        N = int(rng.integers(1, 4))
+        yield {'self': pa.Pauli(bits(rng, 2 * N), int(rng.integers(0, 4))), 'clifford_map': _rand_map(rng, N), 'mask': None}
+
+
+@gen(U + 'random_pauli')
+def g_rpauli(rng, level=0, n_random=120):
+    for k in range(n_random):
+        yield {'N': k % 6}
+
+
+@gen(ST + 'random_pauli_map')
+def g_rpmap(rng, level=0, n_random=60):
+    for k in range(n_random):
+        yield {'N': k % 6}
